@@ -82,3 +82,25 @@ Proof.
     apply (IH k' c k f); [cbn in Hf; lia | | exact Hrest].
     rewrite Forall_forall in Hall. now apply Hall.
 Qed.
+
+(* ---- wildcard steps ---- *)
+Theorem selected_is_full : forall a d t s k,
+  subtree t a = Some s -> governing d t a = Some k ->
+  decode_selected d t a = subdata (decode (Some d) t) a.
+Proof.
+  intros a d t s k Hs Hg. unfold decode_selected. rewrite Hs. cbn [option_map].
+  rewrite (partial_decode a (Some d) t s Hs), Hg. now rewrite (find_governs a d t k Hg).
+Qed.
+
+(* root(a(item : 11), b(item : 12)) and the document root(a(item), b(item)): /root/*/item selects both items, the first
+   declaration found on the schema is a/item *)
+Theorem first_match_refuted :
+  exists d t p a,
+    matches_path t a p = true /\
+    decode_selected d t a = subdata (decode (Some d) t) a /\
+    decode_selected_first d t p a <> subdata (decode (Some d) t) a.
+Proof.
+  exists (SDecl 1 0 [SDecl 2 0 [SDecl 5 11 []]; SDecl 3 0 [SDecl 5 12 []]]),
+         (Node 1 [Node 2 [Node 5 []]; Node 3 [Node 5 []]]), [PAny; PName 5%N], [1; 0].
+  repeat split; try reflexivity. cbv. discriminate.
+Qed.
